@@ -2116,6 +2116,11 @@ impl<Front: SocketHandler> ConnectionH2<Front> {
                         && self.position.is_server()
                         && stream_id & 1 == 1
                         && stream_id > self.last_stream_id
+                        // An id we already refused (REFUSED_STREAM) moved
+                        // `highest_peer_stream_id` but not `last_stream_id`:
+                        // it is closed and MUST NOT be accepted a second
+                        // time (RFC 9113 §5.1.1: identifiers are never reused).
+                        && stream_id > self.highest_peer_stream_id
                     {
                         // RFC 9113 §6.8: after sending a GOAWAY, the proxy
                         // MUST NOT accept new streams.
